@@ -39,3 +39,11 @@ Proof.
   - destruct (guess_form _) as [[c row]|]; [reflexivity|]. destruct (ends_with [II] w); [reflexivity|]. destruct (ends_with [DA] w); reflexivity.
   - destruct (ends_with [II] w); [reflexivity|]. destruct (ends_with [DA] w); reflexivity.
 Qed.
+
+(** "within bounded time" while other clients are converting: the updater and the handlers extracted from the server source
+    take their mutexes in one rank order, so no interleaving is a deadlock (C14's theorem on this run's protocol) *)
+From Chokan Require Server.Protocol Gen.Protocol Server.ConcModel Server.ConcProofs Props.C14.
+Theorem C07_no_deadlock : forall ts, ConcModel.reach C14.handler_progs C14.task_progs ts ->
+  (exists i t, nth_error ts i = Some t /\ ConcModel.finished t = false) -> exists i, ConcModel.enabled ts i = true.
+Proof. exact C14.C14_no_deadlock. Qed.
+Print Assumptions C07_no_deadlock.
